@@ -454,6 +454,43 @@ theorem merge_last_wins (ds : List Dict) (pre : Dict) (k : String) (c : Int) (d'
     simp only [Option.bind_some] at h
     exact update_new_last_wins pre k c r d' h
 
+theorem update_cons_leaf_old (old rest : Dict) (k0 : String) (c : Int) :
+    update .old old ((k0, .leaf c) :: rest) none =
+      update .old (if dhas old (canonicalName k0 old) then old else dset old (canonicalName k0 old) (.leaf c)) rest none := by
+  rw [update.eq_def]
+  by_cases h : dhas old (canonicalName k0 old) = true
+  · simp [h, truthy]
+  · simp [h]
+
+/-- **update_old_keeps_old.** With priority `"old"` and scalar new values, nothing that is already in `old` changes
+(new keys are only added): "the old dictionary has preference". -/
+theorem update_old_keeps_old (new : Dict) (hleaf : ∀ kv ∈ new, ∃ c, kv.2 = Cfg.leaf c) : ∀ (old : Dict),
+    ∃ d', update .old old new none = some d' ∧ ∀ k x, dget old k = some x → dget d' k = some x := by
+  induction new with
+  | nil => intro old; exact ⟨old, update_nil _ _ _, fun _ _ h => h⟩
+  | cons kv rest ih =>
+    intro old
+    obtain ⟨k0, v0⟩ := kv
+    obtain ⟨c, hc⟩ := hleaf (k0, v0) (List.mem_cons_self)
+    simp only at hc
+    subst hc
+    rw [update_cons_leaf_old]
+    have hrest : ∀ kv ∈ rest, ∃ c, kv.2 = Cfg.leaf c := fun kv h => hleaf kv (List.mem_cons_of_mem _ h)
+    by_cases h : dhas old (canonicalName k0 old) = true
+    · simp only [h, if_true]
+      exact ih hrest old
+    · simp only [h, Bool.false_eq_true, if_false]
+      obtain ⟨d', hd, hk⟩ := ih hrest (dset old (canonicalName k0 old) (.leaf c))
+      refine ⟨d', hd, ?_⟩
+      intro k x hx
+      apply hk
+      have hne : canonicalName k0 old ≠ k := by
+        intro e
+        apply h
+        simp [dhas, e, hx]
+      rw [dget_dset_other _ _ _ _ hne]
+      exact hx
+
 /-! ### collect_env -/
 
 /-- Variables that do not start with `DASK_` are ignored by `collect_env`, wherever they stand. -/
